@@ -11,6 +11,7 @@ type unindexedMessageIterator struct {
 	topics   map[string]bool
 	start    uint64
 	end      uint64
+	noEnd    bool // no upper bound: end is not applied
 
 	recordBuf []byte
 
@@ -61,7 +62,7 @@ func (it *unindexedMessageIterator) NextInto(msg *Message) (*Schema, *Channel, *
 				// channel ID, it has no option but to skip.
 				continue
 			}
-			if msg.LogTime >= it.start && msg.LogTime < it.end {
+			if msg.LogTime >= it.start && (msg.LogTime < it.end || it.noEnd) {
 				schema := it.schemas.Get(channel.SchemaID)
 				if schema == nil && channel.SchemaID != 0 {
 					return nil, nil, nil, fmt.Errorf("channel %d with unrecognized schema ID %d", msg.ChannelID, channel.SchemaID)
